@@ -56,6 +56,32 @@ func zzLexBound() int {
 	return 3
 }
 
+var zzPrefixes = []string{
+	"\xef\xbb\xbf",   // byte-order mark
+	"\xef\xbb\xbfa\t", // BOM, token, tab
+	"a /*c*/ ",        // token, trailing block comment
+	"a //c\n",         // token, trailing line comment
+	"/*c*/\n",         // leading comment
+	"\"\\",            // string with an escape being started
+	"'\\x",            // hex escape being started
+	"\"\\u00",         // unicode escape being started
+	"1e",              // exponent being started
+	"0x",              // hex literal being started
+	".",               // dot (number or punctuation)
+	"a\n\"",           // second line, string start
+}
+
+// zzTemplate returns a concrete prefix followed by a few arbitrary bytes.
+func zzTemplate() []byte {
+	p := zzPrefixes[zz.Choice(len(zzPrefixes))]
+	k := 1
+	if zz.Tier() == 1 {
+		k = 2
+	}
+	n := zz.IntRange(0, k)
+	return append([]byte(p), zz.Bytes(n)...)
+}
+
 func zzIsSpace(b byte) bool {
 	return zz.Or(zz.Or(b == ' ', b == '\n'), zz.Or(zz.Or(b == '\r', b == '\t'), zz.Or(b == '\f', b == '\v')))
 }
@@ -66,7 +92,15 @@ func zzIsSpace(b byte) bool {
 // reported, and every reported position lies inside the file.
 func HarnessC12Lex() {
 	n := zz.IntRange(0, zzLexBound())
-	data := zz.Bytes(n)
+	zzC12Body(zz.Bytes(n))
+}
+
+// HarnessC12LexTmpl: the same assertions on longer inputs made of a concrete prefix (chosen
+// from zzPrefixes: BOM, comments before tokens, string/number/escape starts) followed by
+// 0..1 (quick) / 0..2 (thorough) arbitrary bytes.
+func HarnessC12LexTmpl() { zzC12Body(zzTemplate()) }
+
+func zzC12Body(data []byte) {
 	r := zzLexAll(data)
 	zz.Assert(r.eof, "C12/lexer-reaches-eof")
 	zz.Assert(r.sawErr == (len(r.errs) > 0), "C12/error-token-iff-error-reported")
@@ -90,7 +124,14 @@ func HarnessC12Lex() {
 // reproduces the input (minus a leading byte-order mark); every comment is attributed.
 func HarnessC11Lex() {
 	n := zz.IntRange(0, zzLexBound())
-	data := zz.Bytes(n)
+	zzC11Body(zz.Bytes(n))
+}
+
+// HarnessC11LexTmpl: tiling on template inputs (see HarnessC12LexTmpl).
+func HarnessC11LexTmpl() { zzC11Body(zzTemplate()) }
+
+func zzC11Body(data []byte) {
+	n := len(data)
 	r := zzLexAll(data)
 	if r.sawErr || len(r.errs) > 0 || !r.eof {
 		return
@@ -140,7 +181,14 @@ func HarnessC11Lex() {
 // item's span starts no later than it ends.
 func HarnessC13Lex() {
 	n := zz.IntRange(0, zzLexBound())
-	data := zz.Bytes(n)
+	zzC13Body(zz.Bytes(n))
+}
+
+// HarnessC13LexTmpl: line/column of every item on template inputs (see HarnessC12LexTmpl).
+func HarnessC13LexTmpl() { zzC13Body(zzTemplate()) }
+
+func zzC13Body(data []byte) {
+	n := len(data)
 	r := zzLexAll(data)
 	info := r.lx.info
 	items := info.Items()
@@ -148,6 +196,12 @@ func HarnessC13Lex() {
 	for it, ok := items.First(); ok && cnt <= n+2; it, ok = items.Next(it) {
 		cnt++
 		ii := info.ItemInfo(it)
+		if ii == nil {
+			// a comment that was lexed but never attributed to a token: only possible when
+			// lexing stopped with an error before the next token
+			zz.Assert(r.sawErr || len(r.errs) > 0, "C13/unattributed-comment-only-after-an-error")
+			continue
+		}
 		s, e := ii.Start(), ii.End()
 		zz.Assert(zz.Or(s.Line < e.Line, zz.And(s.Line == e.Line, s.Col <= e.Col)), "C13/item-start-le-end")
 		zz.Assert(s.Offset <= e.Offset, "C13/item-offsets-ordered")
